@@ -266,14 +266,14 @@ class VGBS:
         Returns:
             array:  the generated samples
         """
-        cov = A_to_cov(A)
+        # The samplers of The Walrus only use their ``hbar`` argument for the vector of means:
+        # hand them the covariance matrix in the units of hbar = 2, for which they are correct.
+        cov = A_to_cov(A) * (2 / sf.hbar)
 
         if self.threshold:
-            samples = thewalrus.samples.torontonian_sample_state(
-                cov, n_samples, hbar=sf.hbar, **kwargs
-            )
+            samples = thewalrus.samples.torontonian_sample_state(cov, n_samples, hbar=2, **kwargs)
         else:
-            samples = thewalrus.samples.hafnian_sample_state(cov, n_samples, hbar=sf.hbar, **kwargs)
+            samples = thewalrus.samples.hafnian_sample_state(cov, n_samples, hbar=2, **kwargs)
         return samples
 
     def add_A_init_samples(self, samples: np.ndarray):
